@@ -171,8 +171,8 @@ PROPS = {
         "assumptions": [],
     },
     "C04": {
-        "thm_module": ["AkdModel.Thm.C04"],
-        "theorems": ["Akd.C04.audit_complete", "Akd.C04.audit_complete_dense", "Akd.C04.appendOnlyProof_eq",
+        "thm_module": ["AkdModel.Thm.C04b"],
+        "theorems": ["Akd.C04.audit_complete_history", "Akd.C04.prefix_epochs", "Akd.C04.rootHash_prefix", "Akd.C04.audit_complete", "Akd.C04.audit_complete_dense", "Akd.C04.appendOnlyProof_eq",
                      "Akd.C04.audit_refused", "Akd.C04.audit_counterexample",
                      "Akd.C01.wf_unique", "Akd.C01.ofLeaves_perm"],
         "streams": ["l1.dir.c04"],
@@ -182,10 +182,12 @@ PROPS = {
         "assumptions": [],
     },
     "C16": {
-        "thm_module": ["AkdModel.Thm.C16"],
+        "thm_module": ["AkdModel.Thm.C16", "AkdModel.Thm.C16b"],
         "theorems": ["Akd.Store." + t for t in ["inv_step", "inv_run", "inv_init", "get_eq_truth", "batchGet_eq_truth",
-                                                "flush_then_epoch", "rejected_write_witness"]],
-        "streams": ["l1.store"],
+                                                "flush_then_epoch", "rejected_write_witness"]]
+                    + ["Akd.CacheFill." + t for t in ["coherent_reachable", "quiescent_cache_exact", "answers_recent",
+                                                      "stale_fill_witness", "stale_fill_witness_fixed", "evict_in_fill_witness"]],
+        "streams": ["l1.store", "l1.sched.read"],
         "rule": "random operation sequences (5..60 ops) through ONE real StorageManager over a fault-injecting database: "
                 "set/batch_set (15% rejected by the database), get/batch_get, the user-state queries, begin/commit/rollback, "
                 "flush, sleeps that outlive the 3 ms item lifetime; uncached / cached / 300-byte memory limit; every read is "
@@ -224,12 +226,16 @@ PROPS = {
         "assumptions": ["preemption inside in-memory sections on a multi-thread runtime (DashMap shards, relaxed atomics) is not in the model"],
     },
     "C13": {
-        "thm_module": ["AkdModel.Thm.C13"],
+        "thm_module": ["AkdModel.Thm.C13", "AkdModel.Thm.C16b"],
         "theorems": ["Akd.C13." + t for t in ["snapshot_read", "resolve_current", "resolve_lag1", "write_preserves", "write_new",
-                                              "write_frame", "lag2_witness"]],
+                                              "write_frame", "lag2_witness"]]
+                    + ["Akd.CacheFill." + t for t in ["coherent_reachable", "quiescent_cache_exact", "answers_recent",
+                                                      "stale_fill_witness", "stale_fill_witness_fixed", "evict_in_fill_witness"]],
         "streams": ["l1.dir.c13", "l1.sched.read"],
         "rule": "(a) read requests (epoch hash, lookup, complete / most-recent history, audit; one or two at a time) on a second, "
-                "read-only instance (uncached, default cache, 1 ms cache) run as tasks interleaved with a publish on the writer at "
+                "read-only instance (uncached, default cache, 1 ms cache — or SHARING the writer's cached storage manager, with database "
+                "reads that take their value at one scheduling point and deliver it at a later one, followed by a probe of the same "
+                "instance after the run) run as tasks interleaved with a publish on the writer at "
                 "storage-call granularity: ALL schedules with at most 2 (thorough: 3) preemptions; oracle: every answer is an error or "
                 "an (epoch, root hash) pair that was published, with a proof that verifies against it, never older than what was "
                 "published before the request started; (b) histories with a label updated in every epoch; four read-only instances (own cached storage manager with a 2 ms "
@@ -238,7 +244,9 @@ PROPS = {
                 "complete and most-recent histories and audits; every answer is compared with the model (a directory whose epoch "
                 "record is pinned while node records advance) and judged by the oracle: error, or an (epoch, root hash) pair the "
                 "writer really published for that epoch together with a proof that verifies against it",
-        "assumptions": ["cache fills racing a commit on ONE storage manager and the change poller are not explored (partial)"],
+        "assumptions": ["the change poller is not explored",
+                        "CacheFill model: one cache entry, content abstracted to a version number; an entry does not expire between the "
+                        "generation check and the insertion of one TimedCache::fill call (the residual window is stated: evict_in_fill_witness)"],
     },
     "C14": {
         "thm_module": ["AkdModel.Thm.C01b", "AkdModel.Thm.C01a"],
